@@ -85,7 +85,7 @@ func (*aliasEng) Corpus(bool) []Case {
 
 	for i, p := range progs {
 		for _, flav := range storeFlavours {
-			for _, rf := range []string{"tres", "typed"} {
+			for _, rf := range []string{"tres", "typed", "rdspec"} {
 				cs = append(cs, Case{
 					Header: fmt.Sprintf("# engine=alias flavour=%s res=%s corpus=%d", flav, rf, i),
 					Ops:    append([]string{}, p...),
@@ -264,7 +264,7 @@ func mutTok(name string, args []string) string {
 
 func (e *aliasEng) Gen(r *Rand, thorough bool, idx int) Case {
 	flav := storeFlavours[idx%len(storeFlavours)]
-	resFlav := []string{"tres", "typed"}[(idx/2)%2]
+	resFlav := []string{"tres", "typed", "rdspec", "typed"}[(idx/2)%4]
 
 	n := 40
 	if thorough {
@@ -469,11 +469,19 @@ func (aExt) ResourceDefinition() meta.ResourceDefinitionSpec {
 
 type aTyped = typed.Resource[aSpec, aExt]
 
+// the third flavour: a typed resource whose spec is the library's own ResourceDefinitionSpec (slices inside: the
+// spec's DeepCopy must copy them); the engine's spec string lives in PrintColumns[0].Name and is EDITED IN PLACE
+type aRD = typed.Resource[meta.ResourceDefinitionSpec, aExt]
+
 func aliasNew(resFlav, id string) resource.Resource { //nolint:ireturn
 	md := resource.NewMetadata("n1", "T1", id, resource.VersionUndefined)
 
 	if resFlav == "typed" {
 		return typed.NewResource[aSpec, aExt](md, aSpec{})
+	}
+
+	if resFlav == "rdspec" {
+		return typed.NewResource[meta.ResourceDefinitionSpec, aExt](md, meta.ResourceDefinitionSpec{Type: "T1", Aliases: []string{"t1"}})
 	}
 
 	return &TRes{md: md}
@@ -485,6 +493,18 @@ func aliasSetSpec(r resource.Resource, s string) {
 		v.spec = TSpec{S: s}
 	case *aTyped:
 		v.TypedSpec().S = s
+	case *aRD:
+		sp := v.TypedSpec()
+
+		switch {
+		case s == "" && len(sp.PrintColumns) > 0:
+			sp.PrintColumns[0].Name = "" // in place
+		case s == "":
+		case len(sp.PrintColumns) == 0:
+			sp.PrintColumns = []meta.PrintColumn{{Name: s, JSONPath: "{.x}"}}
+		default:
+			sp.PrintColumns[0].Name = s // in place: the array is the object's own
+		}
 	default:
 		panic(fmt.Sprintf("unknown resource flavour %T", r))
 	}
@@ -496,6 +516,12 @@ func aliasSpec(r resource.Resource) string {
 		return v.spec.S
 	case *aTyped:
 		return v.TypedSpec().S
+	case *aRD:
+		if sp := v.TypedSpec(); len(sp.PrintColumns) > 0 {
+			return sp.PrintColumns[0].Name
+		}
+
+		return ""
 	default:
 		return specOf(r)
 	}
